@@ -992,7 +992,11 @@ class _DefToLambda(ast.NodeTransformer):
             t_ = _SubstAll(env)
             t_._top = n
             body = [ast.copy_location(ast.Return(value=t_.visit(copy.deepcopy(body[0].value))), body[0])]
-        if len(body) == 1 and isinstance(body[0], ast.Return) and body[0].value is not None and not n.decorator_list:
+        # (only a function that is just called: one that is handed to somebody else keeps its name - a graph node may be named after it)
+        top = getattr(self, "_top", None)
+        called = {id(c.func) for c in ast.walk(top) if isinstance(c, ast.Call)} if top is not None else set()
+        only_called = top is not None and all(id(x) in called for x in ast.walk(top) if isinstance(x, ast.Name) and x.id == n.name and isinstance(x.ctx, ast.Load))
+        if len(body) == 1 and isinstance(body[0], ast.Return) and body[0].value is not None and not n.decorator_list and only_called:
             return ast.copy_location(ast.Assign(targets=[ast.Name(id=n.name, ctx=ast.Store())], value=ast.Lambda(args=n.args, body=body[0].value), lineno=n.lineno), n)
         return n
 
